@@ -2,6 +2,8 @@
 
 A history is a list of commands for harness/drive_pitch; the first one is an init command.
   {"o":"init","fam":0|1,"chips":n,"banks":[...]}            fam: opn2_setChipType (0 = OPN2, 1 = OPNA)
+      with "seq":1 the commands up to the next init line are delivered by the sequencer from a two-port song (channels 16..31 =
+      second port); only pc / cc / on / off / bend / bendml / cat / nat are available then
   {"o":"pc","ch":c,"p":p}   {"o":"cc","ch":c,"n":n,"v":x}   {"o":"on","ch":c,"k":k,"v":vel}   {"o":"off","ch":c,"k":k}
   {"o":"bend","ch":c,"v":0..16383}   {"o":"bendml","ch":c,"m":msb,"l":lsb}   {"o":"tick","us":microseconds}
   {"o":"cat","ch":c,"v":x} (channel aftertouch)   {"o":"nat","ch":c,"k":k,"v":x} (key aftertouch)
@@ -298,6 +300,46 @@ def random_history(rng, length=40):
             h.append(bend(ch, 8192))
         else:
             # reset all controllers: the bend range falls back to 2 semitones, the wheel is centred
+            h += [cc(ch, 121, 0), bend(ch, rng.choice([0, 16383, rng.randrange(16384)]))]
+    return h
+
+
+def seq_history(rng, length=40):
+    """the same commands delivered by the SEQUENCER from a two-port song (init option "seq", see harness/drive_pitch.cpp):
+    channels 16..31 are channels 0..15 of the second MIDI port.  The same channel numbers are in use on both ports at the
+    same time, so an event routed to the wrong port re-pitches (or fails to re-pitch) the other port's notes.  No time
+    commands, portamento or vibrato: a millisecond passes between two commands here."""
+    fam = rng.randrange(2)
+    base = rng.choice([[0, 1, 9], [0, 3, 9], [2, 9]])
+    chans = base + [16 + c for c in base]
+    h = [dict(init(fam, 3), seq=1)]
+    ons = 0
+    for ch in chans:
+        h += rpn_range(ch, *rng.choice(RANGES + [(1, 0), (48, 0)]))
+    held = {c: [] for c in chans}
+    for _ in range(length):
+        ch = rng.choice(chans)
+        r = rng.random()
+        keys = sorted(DRUMS) if ch % 16 == 9 else [12, 20, 33, 47, 60, 61, 69, 72, 90, 104]
+        if r < 0.28 and ons < 16:
+            k = rng.choice(keys); h.append(on(ch, k, rng.choice([1, 64, 100, 127]))); held[ch].append(k); ons += 1
+        elif r < 0.36 and held[ch]:
+            k = rng.choice(held[ch]); h.append(off(ch, k)); held[ch].remove(k)
+        elif r < 0.68:
+            h.append(bend(ch, rng.choice([0, 8191, 8192, 8193, 16383, rng.randrange(16384), rng.randrange(16384)])))
+        elif r < 0.72:
+            v = rng.randrange(16384); h.append({"o": "bendml", "ch": ch, "m": v >> 7, "l": v & 127})
+        elif r < 0.80:
+            h += rpn_range(ch, *rng.choice(RANGES + [(0, 0), (5, 100)]))
+        elif r < 0.86 and ch % 16 != 9:
+            h.append({"o": "pc", "ch": ch, "p": rng.choice(sorted(PROGS))})
+        elif r < 0.91:
+            h.append(cc(ch, 64, rng.choice([0, 127])))
+        elif r < 0.94:
+            h.append(cc(ch, 66, rng.choice([0, 127])))
+        elif r < 0.97:
+            h.append(cc(ch, rng.choice([7, 10, 11, 74, 91]), rng.randrange(128)))
+        else:
             h += [cc(ch, 121, 0), bend(ch, rng.choice([0, 16383, rng.randrange(16384)]))]
     return h
 
